@@ -135,7 +135,7 @@ def judge(case, res, V, stats):
             what = ("%s:expecting-%s" % (m.group(1), m.group(2))) if m else "other"
             if v.get("cause"):
                 what = v["cause"]
-            V.violation("rejected:%s:%s" % (kinds, what), one, v)
+            V.violation(("rejected:%s" % what) if v.get("cause") else ("rejected:%s:%s" % (kinds, what)), one, v)
         elif r == "crash":
             V.violation("crash:" + kinds, one, v)
         elif r == "roles_differ":
